@@ -25,8 +25,8 @@ PROP_RULE = ("a case is (dataset split into before/update parts, SELECT text) fr
              "non-empty; distinct by (dataset, syntax tree).")
 
 KINDS = ["fresh", "stale", "empty", "zeros", "large", "swapped", "huge", "big"]
-PLAN_DEPENDENT = {"undef-filter-sibling", "bind-target-sibling"}
-FINDING_OF = {"undef-filter-sibling": "C02-undef-filter-plan-dependence", "bind-target-sibling": "C02-bind-target-plan-dependence"}
+PLAN_DEPENDENT = {"undef-filter-sibling"}
+FINDING_OF = {"undef-filter-sibling": "C02-undef-filter-plan-dependence"}
 REQ = C1.REQ
 
 
@@ -119,6 +119,15 @@ def gen_cases(ctx, n):
         if r0 > 0.90:
             ds, q = L.gen_scanfree_graphs(rng)
             ops["scanfree_graph_family"] = ops.get("scanfree_graph_family", 0) + 1
+        elif r0 > 0.75 and r0 <= 0.82:
+            # DISTINCT + ORDER BY over a strict subset of the projection: the result must not depend on the order in which the
+            # plan emits the rows that tie on the key (seeded C02r2/3)
+            ds, q = L.gen_distinct_order(rng)
+            ops["distinct_order_subset_family"] = ops.get("distinct_order_subset_family", 0) + 1
+        elif r0 > 0.82:
+            # the shapes of the repaired finding C02-bind-target-plan-dependence: every join algorithm must agree now
+            ds, q = L.gen_bind_sibling(rng)
+            ops["bind_sibling_family"] = ops.get("bind_sibling_family", 0) + 1
         elif r0 < 0.12:
             ds, q = gen_wide(rng)
             ops["wide"] = ops.get("wide", 0) + 1
